@@ -9,4 +9,5 @@ Export == (done /\ result = <<>>) =>
                             setup |-> SetupKinds, snaps |-> snaps, sds |-> sds,
                             acc |-> {O!Verdict(tcStatus, r[3]) : r \in Acceptable},
                             executed |-> ActExecuted])>>)
+ASSUME PrintT(<<"LEFT", ToJson({[row |-> r, exp |-> LeftExpected(r)] : r \in LeftRows})>>)
 =============================================================================
